@@ -875,3 +875,26 @@ def uniter_collect(f):
     if n:
         f.rewrites.append(('R6', f'{n} iterator pipeline(s) `SRC[.flat_map|.map|.copied|.chain]*.collect()` compiled to loops filling a fresh vector (closure bodies verbatim; Vec-valued tails appended whole)', ''))
     return f
+
+
+def unget_copied_unwrap_or(f):
+    """R6: `X.get(I).copied().unwrap_or(DFLT)` -> `(if I < X.len() { X[I] } else { DFLT })`"""
+    n = 0
+    while True:
+        m = re.search(r'([\w.]+)\s*\.get(\()', f.body)
+        if not m:
+            break
+        close = match_brace(f.body, m.start(2))
+        idx = f.body[m.start(2) + 1:close].strip()
+        m2 = re.match(r'\s*\.copied\(\)\s*\.unwrap_or(\()', f.body[close + 1:])
+        if not m2:
+            break
+        o2 = close + 1 + m2.start(1)
+        c2 = match_brace(f.body, o2)
+        dflt = f.body[o2 + 1:c2].strip()
+        x = m.group(1)
+        f.body = f.body[:m.start()] + f'(if {idx} < {x}.len() {{ {x}[{idx}] }} else {{ {dflt} }})' + f.body[c2 + 1:]
+        n += 1
+    if n:
+        f.rewrites.append(('R6', f'{n}x `X.get(i).copied().unwrap_or(d)` -> bounds-checked index', ''))
+    return f
